@@ -126,6 +126,45 @@ theorem action_roundtrip (a : Act) (h : Expressible a) :
   | error e => rw [ht] at hrt; cases hrt
   | ok r => rw [ht] at hrt; exact ⟨r, rfl, hrt⟩
 
+/-- **`Expressible` is exactly the domain of the round trip**: an action comes back intact from
+its own row if AND ONLY IF it is expressible — no clause of the predicate can be dropped or
+weakened, for any action (the `needs_…` theorems below are instances, replayed on the real code). -/
+theorem expressible_iff_roundtrip (a : Act) : Expressible a ↔ roundTrip a = .ok [a] :=
+  ⟨roundTrip_of_expressible a, expressible_of_roundTrip a⟩
+
+/-- the row of an exported action never makes a node-level action unless it is one -/
+theorem export_not_node_level :
+    ∀ p ∈ exportRowType, p.1 ∉ [tEnterFlow, tCallWebhook, tTransferAirtime] → classifyNode p.2 = .other := by
+  decide
+
+/-- **Second and later actions of a node.**  A row merged into an existing node (`_nodeId`) is
+compiled by `_get_row_action` alone (`existing_node.add_action(row_action)`, no node is built):
+every expressible action that is not node-level (enter_flow / call_webhook / transfer_airtime are
+always alone on their router node) comes back from `_get_row_action` by itself. -/
+theorem action_roundtrip_merged (a : Act) (h : Expressible a)
+    (hn : a.typeStr ∉ [tEnterFlow, tCallWebhook, tTransferAirtime]) :
+    ∃ r, toFields a = .ok r ∧ rowAction r = .ok (some a) := by
+  obtain ⟨r, hr, hof⟩ := action_roundtrip a h
+  refine ⟨r, hr, ?_⟩
+  have hnode : rowNodeAction r = .ok none := by
+    have := export_not_node_level _ (toFields_type a r hr) hn
+    simp only at this
+    simp only [rowNodeAction, this]
+  unfold ofFields at hof
+  rw [hnode] at hof
+  cases hra : rowAction r with
+  | error e => rw [hra] at hof; cases hof
+  | ok x =>
+    rw [hra] at hof
+    cases x with
+    | none => simp at hof
+    | some b =>
+      simp only [Option.toList, List.nil_append, Except.ok.injEq, List.cons.injEq, and_true] at hof
+      rw [hof]
+
+example : Act.typeStr (.setRunResult [] [] []) ∉ [tEnterFlow, tCallWebhook, tTransferAirtime] := by decide
+example : ∃ r, toFields (.addContactUrn "+1".toList "tel".toList) = .ok r := ⟨_, rfl⟩
+
 /-! non-vacuity: one expressible action per kind (each with content in every field) -/
 example : Expressible (.sendMsg "hi".toList ["image:http://x/a.png".toList] ["yes".toList, "no".toList]
     false [] (some { name := "promo".toList, templateUuid := "t-1".toList, vars := ["v".toList] })) := by decide
